@@ -789,7 +789,9 @@ class Interp:
             # equality of identical atoms / disequality of distinct constants is decided; else an atom
             if op in ("Eq", "Ne") and a.key() == b.key() and not isinstance(a, Top):
                 return Const(1 if op == "Eq" else 0, "bool")
-            return self.fresh_sym(st, "cmp:%s:%s:%s" % (op, self.short(a), self.short(b)))
+            nm = "cmp:%s:%s:%s" % (op, self.short(a), self.short(b))
+            st.effect(("cmp", nm, op, self.abstract(a, st), self.abstract(b, st)))
+            return self.fresh_sym(st, nm)
         base = op.replace("WithOverflow", "").replace("Unchecked", "")
         if _op_depth(a) >= 8 or _op_depth(b) >= 8:
             sym = Top("arith")          # widen deep arithmetic (loop counters)
@@ -802,7 +804,11 @@ class Interp:
     def short(self, v):
         k = v.key()
         s = repr(k)
-        return s if len(s) < 60 else s[:57] + "..."
+        if len(s) < 60:
+            return s
+        # long operands: keep a readable prefix, make the atom name unique with a digest of the whole key
+        import hashlib
+        return s[:48] + "..#" + hashlib.sha1(s.encode()).hexdigest()[:8]
 
     def discriminant(self, frame, rv, st):
         place = rv["place"]
